@@ -144,6 +144,13 @@ class Ctx:
                 return v
         return None
 
+    def eval_now(self, term):
+        """A value of `term` in some model of the current path condition (does not constrain the path)."""
+        r = self._check()
+        if r != z3.sat:
+            raise SolverUnknown("eval_now") if r == z3.unknown else Infeasible()
+        return self.solver.model().eval(term, model_completion=True).as_long()
+
     def implied(self, cond) -> bool:
         """pc |= cond ?  (no fork)"""
         cond = z3.simplify(cond)
